@@ -2654,6 +2654,376 @@ def env_run(rec, targets, tier):
             rec.count('env_targets_probed_' + tid[0])
 
 
+# =========================================================================== PENV: the environment the interpreter is started in
+# The statement is quantified over PROGRAMS, and a program does not choose the environment of its process: a test runner (tox,
+# pytest), a CI service, a notebook server or a command-line switch of Python (-O, -X dev, -W) defines variables BEFORE the
+# package is imported; others appear later (pytest defines PYTEST_CURRENT_TEST while a test runs).  Every other layer runs in
+# the one environment the check was started in.  This layer starts FRESH INTERPRETERS:
+#   alphabet  = environment at interpreter start {as inherited (cleaned of every variable of the alphabet); one variable that
+#               the package itself looks at - found by a scan of the package sources, and by OBSERVING every look-up of
+#               os.environ made from a package frame during import / discovery / the probes - x 5 values; every bundle of
+#               variables that one tool defines together (tox, pytest, CI, debug flags, notebook / virtualenv tools, python -O /
+#               -OO, dev mode, hash seed, encodings, bare system); thorough: every (variable, value) of the menu alone, and every
+#               package variable x every bundle} x history {probed as started; then every variable (re)defined / removed AFTER
+#               the import, restored afterwards} x every alias of the package (module-level bindings, (receiver class, alias)
+#               pairs x {subclass override, own replacement}, obsolete keywords) and of the toy family (decorated in that
+#               interpreter) x shapes;
+#   oracle    = the clauses of L0 / L1 / DP, unchanged (the replacement - a recording sentinel - is reached once with the very
+#               arguments, its result comes back, exactly one DeprecationWarning that names it, nothing else), and the set of
+#               aliases the package offers is the one it offers in the base environment.
+#   out of the domain (counted): an environment in which the package cannot be imported at all.
+PENV_TIMEOUT = 420.0
+_PENV_BOOT = ('import sys; sys.path.insert(0, sys.argv[2]); import props.c20 as m; m.penv_child(sys.argv[1])')
+PENV_VARIANTS = {'quick': ['sub1', 'own'], 'thorough': ['sub1', 'sub2', 'viaclass', 'own']}
+PENV_LATE_CHUNK = {'quick': 64, 'thorough': 12}
+
+
+def penv_shapes(tier):
+    return [(1, ('k1',), False)] + ([(0, (), False), (2, ('k1',), True)] if tier != 'quick' else [])
+
+
+def penv_units(variants):
+    D = discover()
+    units = [['fun'] + list(b) for b in D['mod_aliases']]
+    units += [['pair', v] + list(p) for p in D['pairs'] for v in variants]
+    for e in D['dp']:
+        for o in sorted(k for _, d in e['levels'] for k in d):
+            units.append(['dp', e['label'], o])
+    units += [['toy', form, alias, newname, recv] for form, alias, newname, recvs in L0_FORMS for recv in recvs]
+    entry = dp_toy_entry()
+    units += [['toydp', o] for o in sorted(k for _, d in entry['levels'] for k in d)]
+    return units
+
+
+def penv_unit_label(u):
+    if u[0] == 'fun':
+        return 'function', f'{u[1]}.{u[2]} -> {u[3]}'
+    if u[0] == 'pair':
+        return u[8], f'{u[3]}.{u[4]} (declared in {u[7]}) -> {u[5]} [{u[1]}]'
+    if u[0] == 'dp':
+        return 'keyword', f'{u[1]}({u[2]}=...)'
+    if u[0] == 'toy':
+        return 'decorator-level', f'toy {u[1]} alias {u[2]} on receiver {u[4]}'
+    return 'decorator-level', f'toy function c20_toy({u[1]}=...)'
+
+
+def penv_probe_unit(u, shape, pool):
+    """-> (bad, outcome) | None (not applicable).  The probes (and their oracle clauses) are those of L1F / L1 / DP / L0."""
+    if u[0] == 'fun':
+        r = l1_fun_probe(tuple(u[1:]), shape, pool)
+    elif u[0] == 'pair':
+        r = l1_pair_probe(tuple(u[2:]), u[1], shape, pool)
+    elif u[0] in ('dp', 'toydp'):
+        if shape[2]:
+            return None
+        entry = dp_toy_entry() if u[0] == 'toydp' else next((e for e in discover()['dp'] if e['label'] == u[1]), None)
+        if entry is None:
+            return None
+        r = dp_probe(entry, (u[-1],), shape[0], None, 0, pool)
+    else:
+        r = l0_probe(u[1], u[2], u[3], u[4], shape, pool)
+    if r is None or isinstance(r, str):
+        return None
+    return r[0], r[1]
+
+
+class _EnvironWatch:
+    """Records every look-up of os.environ made from a frame of the package (the variables the package looks at)."""
+
+    def __init__(self):
+        self.reads = set()
+        self.iterates = 0
+
+    def install(self):
+        import os as _os
+        cls = type(_os.environ)
+        orig_get, orig_iter = cls.__getitem__, cls.__iter__
+        marker = _os.sep + PKG + _os.sep
+        skip = (_os.__file__, getattr(sys.modules.get('_collections_abc'), '__file__', '') or '')
+        watch = self
+
+        def from_package():
+            f = sys._getframe(2)
+            while f is not None and (f.f_code.co_filename in skip or f.f_code.co_filename.startswith('<frozen ')
+                                     or f.f_code.co_filename.endswith(('_collections_abc.py', _os.sep + 'os.py'))):
+                f = f.f_back
+            return f is not None and marker in f.f_code.co_filename
+
+        def getitem(self_, key):
+            if from_package():
+                watch.reads.add(str(key))
+            return orig_get(self_, key)
+
+        def iterate(self_):
+            if from_package():
+                watch.iterates += 1
+            return orig_iter(self_)
+
+        cls.__getitem__ = getitem
+        cls.__iter__ = iterate
+
+
+def penv_child(jobfile):
+    """Runs in the fresh interpreter: imports the package, discovers the aliases, probes them phase by phase."""
+    import json
+
+    with open(jobfile, encoding='utf-8') as fh:
+        job = json.load(fh)
+    out = dict(phases=[], import_error=None, units=[], reads=[], iterates=0, flags=None)
+    watch = _EnvironWatch()
+    watch.install()
+    try:
+        D = discover()
+        if D['import_errors']:
+            out['import_error'] = 'modules not importable: ' + ', '.join(f'{m} ({e})' for m, e in D['import_errors'][:5])
+    except BaseException as e:  # noqa
+        out['import_error'] = f'{type(e).__name__}: {_mask(str(e))[:200]}'
+    if out['import_error'] is None:
+        all_variants = sorted({v for ph in job['phases'] for v in ph['variants']}, key=VARIANTS.index)
+        units = penv_units(all_variants)
+        out['units'] = units
+        only = job.get('only')
+        for ph in job['phases']:
+            saved = {}
+            for k, v in (ph.get('late') or {}).items():
+                saved[k] = os.environ.get(k)
+                if v is None:
+                    os.environ.pop(k, None)
+                else:
+                    os.environ[k] = v
+            rows = []
+            try:
+                for i, u in enumerate(units):
+                    if u[0] == 'pair' and u[1] not in ph['variants']:
+                        continue
+                    if only is not None and u != only:
+                        continue
+                    for si, shape in enumerate(ph['shapes']):
+                        shape = (shape[0], tuple(shape[1]), shape[2])
+                        r = penv_probe_unit(u, shape, job['pool'])
+                        if r is None:
+                            continue
+                        bad, outcome = r
+                        rows.append([i, si, repr(outcome), [[b[0], _mask(str(b[1]))[:400], b[2], b[3]] for b in bad]])
+            finally:
+                for k, v in saved.items():
+                    if v is None:
+                        os.environ.pop(k, None)
+                    else:
+                        os.environ[k] = v
+            out['phases'].append(rows)
+    out['reads'] = sorted(watch.reads)
+    out['iterates'] = watch.iterates
+    out['flags'] = [sys.flags.optimize, bool(sys.flags.dev_mode), bool(__debug__)]
+    with open(job['out'], 'w', encoding='utf-8') as fh:
+        json.dump(out, fh, default=repr)
+
+
+_PENV_N = [0]
+
+
+def penv_alphabet_names():
+    from vf import ref_ambient as RA
+    return set(RA.ENV_MENU) | set(penv_package_names())
+
+
+_PENV_NAMES = None
+
+
+def penv_package_names():
+    """Environment variables the package sources mention (scan of the tree under test, no import)."""
+    global _PENV_NAMES
+    if _PENV_NAMES is None:
+        import importlib.util
+        from vf import ref_ambient as RA
+
+        spec = importlib.util.find_spec(PKG)
+        root = list(spec.submodule_search_locations)[0]
+        direct, indirect = RA.scan_environment_names(root)
+        _PENV_NAMES = direct + [n for n in indirect if n not in direct]
+    return _PENV_NAMES
+
+
+def penv_spawn(start, phases, pool, only=None):
+    """Starts one interpreter in the environment `start` (a delta on the cleaned inherited one) -> result dict | {'failed': ...}"""
+    import json
+    import subprocess
+    from vf import ref_ambient as RA
+
+    _PENV_N[0] += 1
+    stem = f'c20_penv_{os.getpid()}_{_PENV_N[0]}'
+    jobfile, outfile = os.path.abspath(stem + '.job.json'), os.path.abspath(stem + '.out.json')
+    with open(jobfile, 'w', encoding='utf-8') as fh:
+        json.dump(dict(phases=phases, pool=pool, only=only, out=outfile), fh)
+    env = RA.start_environment(os.environ, start, clean=[n for n in penv_alphabet_names()
+                                                          if n in RA.ENV_MENU and RA.ENV_MENU[n][0] == 'runner' or n not in RA.ENV_MENU])
+    env['PYTHONDONTWRITEBYTECODE'] = '1'   # (never write into the tree under test)
+    root = os.path.dirname(os.path.dirname(os.path.abspath(__file__)))
+    try:
+        done = subprocess.run([sys.executable, '-c', _PENV_BOOT, jobfile, root], env=env, stdin=subprocess.DEVNULL,
+                              stdout=subprocess.DEVNULL, stderr=subprocess.PIPE, timeout=PENV_TIMEOUT)
+        if done.returncode != 0 or not os.path.exists(outfile):
+            return dict(failed=f'exit {done.returncode}: ' + _mask(done.stderr.decode('utf-8', 'replace'))[-400:])
+        with open(outfile, encoding='utf-8') as fh:
+            return json.load(fh)
+    except subprocess.TimeoutExpired:
+        return dict(failed='timeout')
+    finally:
+        for f in (jobfile, outfile):
+            try:
+                os.remove(f)
+            except OSError:
+                pass
+
+
+def penv_late_deltas(tier, seed):
+    """Every variable of the alphabet (re)defined or removed after the import (the interpreter's own switches excepted)."""
+    from vf import ref_ambient as RA
+
+    out = []
+    for n in penv_package_names():
+        out += [{n: v} for v in RA.FLAG_VALUES]
+    for n, (cls, vals) in RA.ENV_MENU.items():
+        if cls == 'python' or n in penv_package_names():
+            continue
+        for v in (vals if tier != 'quick' else [RA.env_menu_value(n, seed)]):
+            out.append({n: v})
+    return out
+
+
+def penv_tasks(tier, seed):
+    from vf import ref_ambient as RA
+
+    t = []
+    lates = penv_late_deltas(tier, seed)
+    n = PENV_LATE_CHUNK[tier]
+    chunks = [lates[i:i + n] for i in range(0, len(lates), n)] or [[]]
+    for i, ch in enumerate(chunks):
+        t.append(dict(part='PENV', tier=tier, env='base', start={}, lates=ch, base=(i == 0)))
+    names = penv_package_names()
+    for nme in names:
+        for v in RA.FLAG_VALUES:
+            t.append(dict(part='PENV', tier=tier, env=nme, start={nme: v}, lates=[{nme: None}]))
+    for b in RA.ENV_BUNDLES:
+        d = RA.env_bundle(b, seed)
+        t.append(dict(part='PENV', tier=tier, env='bundle:' + b, start=d,
+                      lates=[{k: None} for k in d if RA.ENV_MENU[k][0] != 'python' and d[k] is not None][:3]))
+    if tier != 'quick':
+        for nme, (cls, vals) in RA.ENV_MENU.items():
+            if nme in names:
+                continue
+            for v in vals:
+                if [nme] in RA.ENV_BUNDLES.values() and v == RA.env_menu_value(nme, seed):
+                    continue   # (a bundle of this one variable with this value was started above)
+                t.append(dict(part='PENV', tier=tier, env=nme, start={nme: v}, lates=[{nme: None}] if cls != 'python' and v is not None else []))
+        for nme in names:
+            for b in RA.ENV_BUNDLES:
+                d = dict(RA.env_bundle(b, seed))
+                if nme in d:
+                    continue
+                d[nme] = RA.FLAG_VALUES[seed % len(RA.FLAG_VALUES)]
+                t.append(dict(part='PENV', tier=tier, env=f'{nme}+bundle:{b}', start=d, lates=[]))
+    return t
+
+
+def _penv_timing(start, late):
+    if late is None:
+        return 'at-interpreter-start'
+    if all(v is None for v in late.values()):
+        return 'at-interpreter-start-then-removed' if start else 'removed-after-import'
+    return 'defined-after-import'
+
+
+def penv_consume(rec, task, res, start, phases_spec, envkey, my_units):
+    """Folds the result of one child into the record."""
+    from vf import ref_ambient as RA
+
+    slabel = RA.env_label(start)
+    if 'failed' in res:
+        rec.count('penv_child_failed')
+        rec.sample(dict(part='PENV', env=slabel, failed=res['failed'][-300:]))
+        return None
+    rec.count('penv_interpreters_started')
+    if res['import_error']:
+        rec.count('penv_package_not_importable_in_environment')
+        rec.sample(dict(part='PENV', env=slabel, not_importable=res['import_error']))
+        rec.case(None, ('PENV', slabel, 'not-importable'), outcome=('PENV', 'not-importable'))
+        return res
+    units = res['units']
+    have = {tuple(map(str, u)) for u in units}
+    missing = [u for u in my_units if tuple(map(str, u)) not in have]
+    for u in missing[:50]:
+        kind, lab = penv_unit_label(u)
+        _viol(rec, f'PENV interpreter started with {slabel}', f'process-environment:at-interpreter-start:{envkey}', lab,
+              [('alias-missing-in-environment', f'the alias exists in the base environment, not in an interpreter started with {slabel}',
+                'the same aliases as in the base environment', 'missing')],
+              dict(part='PENV', start=start, late=None, unit=u, shape=None, missing=True, envkey=envkey))
+    n = 0
+    for ph, rows in zip(phases_spec, res['phases']):
+        late = ph.get('late')
+        timing = _penv_timing(start, late)
+        plabel = slabel + ('' if late is None else f' ; after the import: {RA.env_label(late)}')
+        key_env = envkey if late is None or start else ','.join(sorted(late))
+        for i, si, outcome, bad in rows:
+            u = units[i]
+            shape = ph['shapes'][si]
+            kind, lab = penv_unit_label(u)
+            n += 1
+            rec.case(('PENV', plabel, tuple(map(str, u)), si), (plabel, u, si, outcome), outcome=('PENV', timing.split('-then')[0], kind, outcome))
+            if bad:
+                _viol(rec, f'PENV environment {plabel}', f'process-environment:{timing.split("-then")[0]}:{key_env}', lab,
+                      [tuple(b) for b in bad], dict(part='PENV', start=start, late=late, unit=u, shape=shape, envkey=envkey))
+    rec.count('penv_probes', n)
+    return res
+
+
+def penv_run(rec, task):
+    from vf import ref_ambient as RA
+
+    tier = task.get('tier', 'quick')
+    pool = POOLS[_SEED % 2]
+    shp = [[s[0], list(s[1]), s[2]] for s in penv_shapes(tier)]
+    variants = PENV_VARIANTS[tier]
+    start = task['start']
+    phases = []
+    if task.get('base', True) or start:
+        phases.append(dict(late=None, variants=variants, shapes=shp))
+    for late in task['lates']:
+        phases.append(dict(late=late, variants=['sub1'] if tier == 'quick' else variants[:2], shapes=shp[:1] if tier == 'quick' else shp))
+    my_units = penv_units(sorted({v for ph in phases for v in ph['variants']}, key=VARIANTS.index))
+    res = penv_consume(rec, task, penv_spawn(start, phases, pool), start, phases, task['env'], my_units)
+    if not start and task.get('base'):
+        if res is not None and not res.get('import_error'):
+            rec.count('penv_base_environment_ok')
+        rec.count('penv_environment_names_in_package_sources', len(penv_package_names()))
+    if res is None or res.get('import_error'):
+        return
+    if res.get('iterates'):
+        rec.count('penv_package_iterates_over_the_environment', res['iterates'])
+    # variables the package was SEEN looking at that are not in the alphabet: explored here and now
+    unknown = [k for k in res['reads'] if k not in penv_alphabet_names()]
+    if unknown and not start:
+        rec.count('penv_variables_found_only_by_observation', len(unknown))
+        for k in unknown[:4]:
+            for v in RA.FLAG_VALUES:
+                ph = [dict(late=None, variants=variants, shapes=shp), dict(late={k: None}, variants=['sub1'], shapes=shp[:1])]
+                penv_consume(rec, task, penv_spawn({k: v}, ph, pool), {k: v}, ph, k, penv_units(variants))
+    elif unknown:
+        rec.count('penv_unknown_variable_looked_at_in_a_non_base_environment', len(unknown))
+
+
+def penv_replay(case, rec):
+    tier = 'quick'
+    shape = case.get('shape') or [1, ['k1'], False]
+    variants = [case['unit'][1]] if case['unit'][0] == 'pair' else ['sub1']
+    phases = [dict(late=case.get('late'), variants=variants, shapes=[shape])]
+    start = case['start']
+    envkey = ','.join(sorted(start)) or 'base'
+    my_units = [case['unit']] if case.get('missing') else []
+    penv_consume(rec, dict(tier=tier), penv_spawn(start, phases, case.get('pool', POOLS[_SEED % 2]), only=None if case.get('missing') else case['unit']),
+                 start, phases, case.get('envkey', envkey), my_units)
+
+
 # =========================================================================== tasks
 L1_SHARDS = {'quick': 24, 'thorough': 48}
 L0H_SHARDS = {'quick': 3, 'thorough': 12}
@@ -2682,6 +3052,7 @@ def tasks(tier, seed):
         t.append(dict(part='RK1', shard=i, of=n, tier=tier))
     for tid in env_toy_targets(tier):
         t.append(dict(part='ENV0', target=tid, tier=tier))
+    t.extend(penv_tasks(tier, seed))
     ne = ENV_SHARDS[tier]
     for i in range(ne):
         t.append(dict(part='ENV1', shard=i, of=ne, tier=tier))
@@ -3841,6 +4212,9 @@ def run_task(task):
         if mine:
             rec.sample(dict(part='ENV1', shard=task['shard'], targets=len(mine), first=mine[0][0],
                             configurations_first=len(env_configs(env_config_sets(mine[0][0], tier, mine[0][1])))))
+    elif part == 'PENV':
+        penv_run(rec, task)
+        rec.sample(dict(part='PENV', env=task['env'], start=task['start'], redefined_after_import=len(task['lates'])))
     elif part == 'L2':
         l2_run(task, rec)
     return rec.result()
@@ -3906,6 +4280,10 @@ def finalize(agg, tier, seed):
         if c.get(flag, 0):
             agg.harness_errors.append((f'{flag}: {c.get(flag)} probes - the reference side of ENV (the model of the warning filters / the '
                                        f'call of the new name) does not behave as the harness assumes', {}))
+    if not c.get('penv_probes', 0) or c.get('penv_base_environment_ok', 0) != 1 or c.get('penv_child_failed', 0):
+        agg.harness_errors.append((f'PENV: {c.get("penv_probes", 0)} probes in {c.get("penv_interpreters_started", 0)} fresh interpreters, base '
+                                   f'environment ok = {c.get("penv_base_environment_ok", 0)}, interpreters that failed = '
+                                   f'{c.get("penv_child_failed", 0)}: the exploration of the process environment would be vacuous', {}))
     for flag in ('rk_model_disagrees_with_python', 'rk_new_name_call_is_not_silent', 'rk_new_name_call_unexpected'):
         if c.get(flag, 0):
             agg.harness_errors.append((f'{flag}: {c.get(flag)} probes - the reference side of RK (the call of the new name) does not '
@@ -3981,6 +4359,8 @@ def replay(case):
         r = env_probe(case['target'], case['cfg'], shape, case['pool'])
         if r is not None and not isinstance(r, str):
             env_report(rec, case['target'], case['cfg'], shape, case['pool'], r)
+    elif part == 'PENV':
+        penv_replay(case, rec)
     elif part == 'L2':
         l2_replay(case, rec)
     return rec.violations
